@@ -484,7 +484,27 @@ class Program:
             c = norm(ty['closure'])
             if c in self.bodies:
                 out.append(c)
+        if not out and depth < 3:
+            # an opaque `impl Fn..` value: built by an in-crate constructor function that returns one of its closures, or moved from another local
+            for d in body.defs().get(l, []):
+                if d[0] == 'call':
+                    for tg in self.call_targets_nopassed(body, d[3]):
+                        if self.bodies[tg].locals[0]['ty'].get('closure'):
+                            c = norm(self.bodies[tg].locals[0]['ty']['closure'])
+                            if c in self.bodies:
+                                out.append(c)
+                elif d[0] == 'assign' and d[3]['rv']['rv'] == 'use' and op_local(d[3]['rv']['op']) is not None and op_local(d[3]['rv']['op']) != l:
+                    out += self.closure_of_operand(body, d[3]['rv']['op'], depth + 1)
         return out
+
+    def call_targets_nopassed(self, body, term):
+        res = norm(term.get('resolved')) if term.get('resolved') else None
+        callee = norm(term.get('callee')) if term.get('callee') else None
+        if res and res in self.bodies:
+            return [res]
+        if callee and callee in self.bodies and not res:
+            return [callee]
+        return []
 
     def callees(self, nid):
         """Set of in-crate bodies `nid` may invoke: direct calls, trait fan-out, closures it passes
@@ -807,6 +827,14 @@ class Effects:
                         if t['dest'].get('p'):
                             continue
                         targets, ext, passed = self.prog.call_targets(b, t)
+                        # a reference-returning accessor: the result also points to the fields the callee's return value points to
+                        # (`fn accessed(&self) -> &AtomicInstant { &self.last_accessed }`), known from the previous round
+                        for tg_ in targets:
+                            if not self.prog.bodies[tg_].locals[0]['ty']['s'].startswith('&'):
+                                continue        # (a value, not a reference into the receiver)
+                            for r_ in self.points.get(tg_, {}).get(0, ()):
+                                if r_[0] in ('field', 'fieldpath'):
+                                    new.add(r_)
                         # the result may point wherever any reference argument points
                         for a in t['args']:
                             p = op_place(a)
@@ -856,6 +884,10 @@ class Effects:
         prog = self.prog
         for nid, b in prog.bodies.items():
             self.points[nid] = self._points_to(b)
+        # two more rounds so that what an accessor returns reaches its callers (and their callers)
+        for _round in range(2):
+            for nid, b in prog.bodies.items():
+                self.points[nid] = self._points_to(b)
         # pass 1: direct effects + direct param mutation
         for nid, b in prog.bodies.items():
             eff = set()
